@@ -275,10 +275,24 @@ func removeDuplicateHashes(hashes []bitcoin.Hash32) []bitcoin.Hash32 {
 		if i != 0 && previousHash.Equal(&hash) {
 			continue
 		}
+		if containsHash(result, hash) {
+			continue // entries with the same hash are not always adjacent
+		}
 		result = append(result, hash)
+		previousHash = hash
 	}
 
 	return result
+}
+
+func containsHash(hashes []bitcoin.Hash32, hash bitcoin.Hash32) bool {
+	for _, h := range hashes {
+		if h.Equal(&hash) {
+			return true
+		}
+	}
+
+	return false
 }
 
 // VerifyHeader verifies that a header was returned for the correct chain.
